@@ -508,6 +508,7 @@ def client(ctx):
             R.violation('g', 'R2', 'verify_chain: both phases exist', 'verify_chain:phases',
                         'verify_with_cache_enabled sites: %d, verify_without_cache sites: %d' % (len(w_calls), len(wo_calls)), cf.loc())
         else:
+            R.ok('g', 'R2', 'verify_chain: both phases exist', '', cf.loc())
             # every path to the cache phase leaves loop 1 through the true arm of the epoch-boundary test
             # or through the None arm of the current (fully verified) link
             from engine import track_result, closure_args, switch_edges
